@@ -139,6 +139,10 @@ def gen_cases(rng, tier, scale):
         dump = f'dump({ptxt};{htxt};{flags};{bp})'
         cases.append(rcase(f'd{k}', tpl, DATA, pre=['probes', 'esc 1'], entry=4, kind='dump', form=form, dump=dump,
                            log=log, hlog=hlog, tags=[form, f'arity{arity}']))
+    # both quote styles also inside array / object literals (finding F20)
+    for i, (src, v) in enumerate([("['a']", ['a']), ("[1,'b c']", [1, 'b c']), ("{'k': 1}", {'k': 1}), ('{"k": \'v\'}', {'k': 'v'})]):
+        cases.append(rcase(f'q{i}', '{{dump ' + src + '}}', DATA, pre=['probes', 'esc 1'], entry=4, kind='dump', form='expr',
+                           dump='dump(' + pj_lit(v) + ';;bti;-)', log=[], hlog=[], tags=['nested-single-quote']))
     return cases
 
 def oracle(c, io, mo):
@@ -161,3 +165,7 @@ def nontrivial(c, mo, io):
 
 def relevant_difference(c, mo, io):
     return True
+
+
+def known_F20_nested_single_quote(c, mo, io):
+    return 'nested-single-quote' in c['tags']
